@@ -414,7 +414,8 @@ def prog_fi(rng, **kw):
             prog["extra"]["cost_short"] = {n: [rng.choice([0, 0.05, 0.2]) for _ in range(T)] for n in cp}
     if rng.random() < 0.4:
         prog["extra"]["bidoffer"] = {n: [rng.choice([0, 2]) for _ in range(T)] for n in names}
-    prog["extra"]["notional"] = {"__series__": True, "values": [rng.choice([1000, 1000, 2000, 500]) for _ in range(T)]}
+    # (a wind-down schedule may set the notional to exactly zero for a while)
+    prog["extra"]["notional"] = {"__series__": True, "values": [rng.choice([1000, 1000, 2000, 500, 0]) for _ in range(T)]}
     w = {n: float(rng.choice([Fraction(1, 2), Fraction(1, 4), Fraction(-1, 4), Fraction(1, 5), Fraction(0)])) for n in names}
     st = [rng.choice([["RunDaily", {}], ["RunEveryNPeriods", {"n": 2}], ["RunOnce", {}]]), ["WeighSpecified", {"w": w}], ["SetNotional", {"notional": "notional"}], ["Rebalance", {}]]
     prog["tree"] = {"name": "r", "fi": True, "algos": st, "children": [{"sec": n, "kind": k, "mult": 1} for n, k in zip(names, kinds)]}
